@@ -133,7 +133,7 @@ class SimulatedIsFitted(Contract):
     functions = Objective.functions + Simulate.functions + ("glotaran.simulation.simulation:simulate",)
     modules = SIM_MODS
     trusted = TRUSTED_PIPE + (
-        "lemma (C01 contract, not re-proved here): if data = matrix @ c then the residual is 0 and, at full column rank, the estimated clp is c",
+        "that data = matrix @ c together with the C01 postcondition (residual orthogonal to the columns) gives residual 0 and, at full column rank, estimated clp = c is the Lean theorem PyVC.exact_data_recovered (lemmas/LeastSquares.lean, all m, n; re-checked every run)",
     )
     strength = "S"
     agreement_runs = 0
@@ -311,3 +311,29 @@ class NoiseSeed(Contract):
             e = log[kinds.index("normal")]
             yield "noise_std_dev_passed", L.eq(e[2], std)
             yield "result_is_the_noisy_draw_around_the_simulated_data", L.and_(*[L.eq(a, c) for a, c in zip(flat(sim.data.values), flat(e[1]))])
+
+
+class RecoveryLemma(Contract):
+    """`exact_data_recovered` (Lean 4 + Mathlib, every m and n, re-checked by `lean` on every run): for b = A c0 a
+    least-squares solution (A^T (b - A clp) = 0, the C01 postcondition) has residual 0 and, when A x = 0 only for
+    x = 0, clp = c0 - the step from `SimulatedIsFitted` to "the objective is zero and the estimated clps equal the
+    generating clps divided by the dataset scale"."""
+
+    prop = "C14"
+    name = "RecoveryLemma"
+    target = None
+    strength = "U"
+    trusted = ("Lean 4.33 kernel and Mathlib; axioms propext, Classical.choice, Quot.sound",)
+
+    def cases(self, tier):
+        return iter(())
+
+    def static_obligations(self, tier):
+        from pathlib import Path
+
+        from pyvc.lean import check_lemmas
+
+        return check_lemmas(
+            Path(__file__).resolve().parent.parent / "lemmas" / "LeastSquares.lean",
+            {"PyVC.exact_data_recovered": "lemma_noise_free_data_give_zero_residual_and_the_generating_clp_for_all_m_n"},
+        )
